@@ -167,7 +167,13 @@ Definition revoked_channels (u : user_st) (roles : list role_st) (since low trig
 Definition inter_pair (s1 s2 e1 e2 : N) : list period :=
   let s := N.max s1 s2 in let e := N.min e1 e2 in if s <? e then [(s, e)] else [].
 
-Definition granted_periods (u : user_st) (roles : list role_st) (c : N) : list period :=
+(* GetRolesIncDeleted: the live roles among RoleNames, then the deleted ones *)
+Definition current_roles_inc_deleted (u : user_st) (roles : list role_st) : list (role_st * N) :=
+  current_roles u roles ++ filter (fun '(r, _) => r_deleted r) (current_roles_all u roles).
+
+(* [held] = the roles the "current roles" loop runs over: GetRolesIncDeleted since /repo commit 7044a86
+   ("fix: include deleted roles when computing the periods a user was granted a channel"), GetRoles before it *)
+Definition granted_periods_over (held : list (role_st * N)) (u : user_st) (roles : list role_st) (c : N) : list period :=
   hget c (u_hist u)
   ++ (match tget c (u_chans u) with Some s => [(s, max64)] | None => [] end)
   ++ flat_map (fun '(r, _) =>
@@ -177,7 +183,7 @@ Definition granted_periods (u : user_st) (roles : list role_st) (c : N) : list p
                  ++ (if tmem c (r_chans r)
                      then map (fun '(_, s) => (s, max64)) (r_chans r)   (* every channel of the role, as written *)
                      else []))
-              (current_roles u roles)
+              held
   ++ flat_map (fun '(name, res) =>
                  match find_role name roles with
                  | None => []
@@ -188,6 +194,13 @@ Definition granted_periods (u : user_st) (roles : list role_st) (c : N) : list p
                          else [])
                  end)
               (u_role_hist u).
+
+Definition granted_periods (u : user_st) (roles : list role_st) (c : N) : list period :=
+  granted_periods_over (current_roles_inc_deleted u roles) u roles c.
+
+(* the function before the repair: a deleted role that is still among the user's roles contributes no period *)
+Definition granted_periods_unrepaired (u : user_st) (roles : list role_st) (c : N) : list period :=
+  granted_periods_over (current_roles u roles) u roles c.
 
 (* ---------- wasDocInChannelPriorToRevocation ---------- *)
 (* a document's ChannelSet ++ ChannelSetHistory: (channel, start, end), end = 0 while still in the channel *)
